@@ -178,6 +178,22 @@ def check_case(p, ctx):
         ctx.count("trivial:no-tension-spread")
 
 
+def run_serial(ctx):
+    """Thorough tier only: one large tissue (about 450 cells, ~700 inferred interfaces) through the Levenberg-Marquardt
+    back-end and through the default one - sizes at which solver budgets and iteration caps start to matter."""
+    if ctx.tier != "thorough":
+        return
+    from ..core import run_case
+    for method in ("lsq", None):
+        p = {"kind": "voronoi", "mode": "uniform", "n_cells": 450, "seed": 4242 + int(ctx.seed), "jitter": 0.3,
+             "n_int": {"mode": "const", "k": 0}, "sub": None, "ne": None, "fit": "dlite", "method": method,
+             "allow_negatives": False, "lab": None, "min_ridge_rel": 1e-5,
+             "pose": {"rot_mode": "uniform", "angle": 0.37, "shift": [0.0, 0.0], "logscale": 0.0, "reflect": False}}
+        ctx.evaluations += 1
+        run_case(ctx, check_case, p, "tissue")
+        ctx.count("large-tissue(450 cells):" + str(method))
+
+
 def run(ctx):
     n = ctx.budget(quick=450, thorough=900)
     drive(ctx, params(ctx.tier), check_case, n, label="tissue")
